@@ -129,7 +129,7 @@ def run(ck, m):
                     # a field: all stores to it in the module must be sanitised
                     attr = rsrc.split(".")[-1]
                     stores = []
-                    for t, s2 in stores_in(m.tree(rel), local=False):
+                    for _r, _q, t, s2 in m.stores(rel):
                         if isinstance(t, ast.Attribute) and t.attr == attr:
                             stores.append((t, s2))
                     def store_ok(t, s2):
